@@ -165,6 +165,7 @@ type envExec struct {
 	revs     []RevInfo
 	needWait bool
 	scanLeak bool
+	dead     bool // an operation got stuck: nothing further is run in this case
 	kmsOutN  int
 	sealN    int
 }
@@ -420,7 +421,24 @@ func (x *envExec) leakScan(ob *EnvObs, rec *ae.DataRowRecord, logs []string) {
 	}
 }
 
-func (x *envExec) do(op EnvOp) (ob EnvObs) {
+// do runs one operation under a watchdog: an operation that does not return within 20 s (e.g. a lock left held by a panic that was
+// recovered further up) is reported as "stuck" and the rest of the case is skipped; its goroutine stays parked.
+func (x *envExec) do(op EnvOp) EnvObs {
+	if x.dead {
+		return EnvObs{R: "skipped", Now: x.now}
+	}
+	done := make(chan EnvObs, 1)
+	go func() { done <- x.doInner(op) }()
+	select {
+	case ob := <-done:
+		return ob
+	case <-time.After(20 * time.Second):
+		x.dead = true
+		return EnvObs{R: "stuck", Now: x.now}
+	}
+}
+
+func (x *envExec) doInner(op EnvOp) (ob EnvObs) {
 	ob.Now = x.now
 	x.faults.Reset(faultPlan(op.Faults))
 	x.tr.Take()
